@@ -655,7 +655,50 @@ class Unit:
             else:
                 self.out_lines.append(line)
                 i += 1
+        self.auto_consts()
         return "\n".join(self.out_lines)
+
+    def auto_consts(self):
+        """R19: a top-level `const NAME: T = ..;` item of a source file from which text was extracted is copied into the unit
+        when the extracted text mentions NAME and the unit does not define it (a refactoring that names a magic number must
+        not make the unit uncompilable, and the value of the constant is part of the code that runs)."""
+        text = "\n".join(self.out_lines)
+        rels = []
+        for f in self.functions:
+            if f["file"] not in rels and not f["file"].startswith("@"):
+                rels.append(f["file"])
+        add = []
+        for rel in rels:
+            src = Source.get(self.repo, rel)
+            for it in src.items:
+                if it.kind != "const":
+                    continue
+                nm = it.name
+                if not re.search(r"\b" + re.escape(nm) + r"\b", text):
+                    continue
+                if re.search(r"\b(const|static)\s+" + re.escape(nm) + r"\b", text):
+                    continue
+                ctext = apply_rewrites(src.src[it.start:it.end], self.rewrites, f"{rel}::const {nm}")
+                add.append((rel, nm, it, ctext, src))
+        if not add:
+            return
+        # insert right after the first `verus! {` line
+        at = None
+        for k, l in enumerate(self.out_lines):
+            if l.strip().startswith("verus!"):
+                at = k + 1
+                break
+        if at is None:
+            return
+        block = []
+        for rel, nm, it, ctext, src in add:
+            block.append(f"// R19: constant copied from {rel} (mentioned by extracted text)")
+            block.extend(ctext.split("\n"))
+            self.rewrites.append({"rule": "R19", "in": f"{rel}::const {nm}", "before": "(not requested by the template)", "after": "const item copied verbatim: " + " ".join(ctext.split())[:120]})
+            self.functions.append({"item": f"const {nm}", "file": rel, "lines": [src.line_of(it.start), src.line_of(it.end)], "sha_source": sha(ctext)})
+        self.out_lines[at:at] = block
+        sh = len(block)
+        self.line_map = [(a + sh if a > at else a, b + sh if b > at else b, lab) for (a, b, lab) in self.line_map]
 
     # -- parsing helpers
     def payload(self, tl, i):
